@@ -137,6 +137,17 @@ func run() (code int) {
 		}
 		defer os.RemoveAll(scratch)
 		return simkit.RunShard(c, args[2], args[3], seed, from, to, simkit.Env{AtlasBin: o.AtlasBin, Scratch: scratch})
+	case "one":
+		// verifsim one <property> <part> <run-index>: runs a single run of the batch and prints its result.
+		if len(args) < 4 {
+			return simkit.ExitHarness
+		}
+		c := registry.Get(args[1])
+		if c == nil {
+			return simkit.ExitHarness
+		}
+		idx, _ := strconv.ParseUint(args[3], 10, 64)
+		return simkit.One(c, args[2], o, idx)
 	case "racechild":
 		seed, _ := strconv.ParseUint(args[1], 10, 64)
 		return registry.RaceChild(seed)
